@@ -18,6 +18,11 @@ func (ex *Exec) execInstr(fr *frame, st *State, ins ssa.Instruction) {
 		st.heap[o] = ex.zeroValue(el)
 		st.env[x] = &PtrVal{Alts: []PtrAlt{{C: TTrue, O: o}}}
 	case *ssa.Store:
+		if _, opaque := ex.operand(st, x.Addr).(*Term); opaque {
+			// store through a pointer into another package's value (e.g. a *url.URL the callee just built)
+			ex.note("store into a value of another package through an opaque pointer is not tracked")
+			break
+		}
 		p := ex.operand(st, x.Addr).(*PtrVal)
 		ex.store(st, p, ex.operand(st, x.Val), x.Pos())
 	case *ssa.UnOp:
@@ -766,15 +771,33 @@ func (ex *Exec) lookup(st *State, x *ssa.Lookup) Value {
 			return App("sat", SInt, m, k)
 		}
 		// opaque map types from other packages (e.g. url.Values)
+		if tup, ok := x.Type().(*types.Tuple); ok {
+			v := ex.symValue(tup.At(0).Type(), ufNamer("maplookup."+string(m.S), m, k), false)
+			return &TupleVal{V: []Value{v, App("maphas."+string(m.S), SBool, m, k)}}
+		}
 		res := ex.symValue(x.Type(), ufNamer("maplookup."+string(m.S), m, k), false)
 		return res
 	}
 	panic(unsupported(fmt.Sprintf("Lookup on %T", base)))
 }
 
+// range over a map or string: the iteration order and count are unknown; each Next yields an
+// uninterpreted (ok, key, value) triple (loops over them are unrolled up to the symbolic bound).
 func (ex *Exec) rangeInit(st *State, x *ssa.Range) Value {
-	panic(unsupported("range over map/string at " + ex.pos(x.Pos())))
+	return &HostVal{Kind: "range", V: ex.operand(st, x.X)}
 }
 func (ex *Exec) rangeNext(st *State, x *ssa.Next) Value {
-	panic(unsupported("range over map/string at " + ex.pos(x.Pos())))
+	ex.objSeq++
+	tup := x.Type().(*types.Tuple)
+	tv := &TupleVal{V: []Value{Fresh("range.ok", SBool)}}
+	for i := 1; i < tup.Len(); i++ {
+		t := tup.At(i).Type()
+		if b, ok := t.(*types.Basic); ok && b.Kind() == types.Invalid {
+			tv.V = append(tv.V, nil)
+			continue
+		}
+		tv.V = append(tv.V, ex.symValue(t, varNamer(fmt.Sprintf("range!%d.%d", ex.objSeq, i)), false))
+	}
+	ex.note("range over a map/string: iteration modelled as an unknown sequence of entries")
+	return tv
 }
